@@ -80,6 +80,10 @@ func runC19(r *Report, p *Program) {
 		{hs, "(*replacer).Replace"}, {hs, "(*replacer).getSubstitution"},
 		{baPkg, "parseHtpasswd"},
 		{hs, "Path.Matches"}, {hs, "PathMatcher.Match"}, {hs, "IfMatcher.Match"}, {hs, "ifCond.True"},
+		// the rewrite rules: they slice the request path by lengths taken from the rule's base
+		// (the extension test of ComplexRule indexes configured strings whose shape NewComplexRule validates, and the
+		// handler asserts the type its own setup stored: configuration invariants, not peer bytes — left out)
+		{"caskethttp/rewrite", "SimpleRule.Match"}, {"caskethttp/rewrite", "SimpleRule.Rewrite"}, {"caskethttp/rewrite", "regexpMatches"}, {"caskethttp/rewrite", "To"},
 	})
 	scope = withModuleCallees(p, scope)
 	st := e5Check(h, "R1", scope, c19Exceptions)
@@ -87,6 +91,7 @@ func runC19(r *Report, p *Program) {
 	c19R2(h)
 	c19R3(h)
 	c19R4(h)
+	c19R5(h)
 }
 
 // c19R2: decided as a table over read segmentations (E10, c19R2Table); the control-flow formulation (c19R2Patterns)
